@@ -1483,7 +1483,7 @@ def heap_probes(ops, vi, group, facts):
     objects, the most recent first"""
     seen, same, other = set(), [], []
     for op in reversed(ops[:vi + 1]):
-        if op['k'] not in ('proc', 'view'):
+        if op['k'] not in ('proc', 'view', 'wire'):
             continue
         k = ref_key(op)
         if k in seen:
@@ -1492,7 +1492,10 @@ def heap_probes(ops, vi, group, facts):
         f = facts.get((op['src'], op['m']), {})
         (same if group is not None and f.get('tkey') == group else other).append(op)
     pick = sorted(same, key=lambda o: o['k'] != 'proc') + sorted(other, key=lambda o: o['k'] != 'proc')
-    return [dict(o) for o in pick[:HEAP_PROBES]]
+    pick = [dict(o) for o in pick[:HEAP_PROBES // 2]]
+    # once with the message objects the history holds, once more after they were released (everything is decoded / encoded
+    # anew through the cached objects)
+    return pick + [{'k': 'drop'}] + [dict(o) for o in pick]
 
 
 def heap_correspondence(ctx, mp, pool_path, hists, results, distinct, refs, refev, refheap):
@@ -1551,9 +1554,10 @@ def heap_correspondence(ctx, mp, pool_path, hists, results, distinct, refs, refe
     def where(ops, v):
         op = ops[v['op']] if 0 <= v['op'] < len(ops) else {'k': '?'}
         return 'operation %d (%s on %s)' % (v['op'], kind_str(op), op.get('m') or op.get('f') or op.get('v') or '-')
-    head = ('heap model hypothesis Sep (no write reaches an object reachable from the table-group cache or a compiled-template cache '
-            'outside the load / compilation of its key; coder-state lists shared as modelled; theorem C13_heap_refines_value_model) '
-            'does not hold of the implementation: ')
+    head = 'heap model hypothesis Sep does not hold of the implementation: '
+    tail = (' [Sep: no write reaches an object reachable from the table-group cache or a compiled-template cache outside the load / '
+            'compilation of its key, per-subset lists of a coder state shared as modelled; hypothesis of theorem C13_heap_refines_value_model, '
+            'lean/BufrModel/Props/C13Heap.lean]')
     searches = []
     done = set()
     for key, lst in sorted(cands.items()):
@@ -1567,7 +1571,7 @@ def heap_correspondence(ctx, mp, pool_path, hists, results, distinct, refs, refe
             limit, ops, res, v, sig, j = direct
             ctx.violation(head + '%s [%s]: %s; operation %d (%s on %s) of the same history gives %s, first in a fresh interpreter %s (%d histories show this violation)'
                           % (where(ops, v), v['kind'], v['text'], j, kind_str(ops[j]), ops[j].get('m') or ops[j].get('f') or ops[j].get('v'),
-                             _short(res['out'][j]), _short(refs[ref_key(ops[j])]), len(lst)),
+                             _short(res['out'][j]), _short(refs[ref_key(ops[j])]), len(lst)) + tail,
                           {'mode': 'history', 'limit': limit, 'ops': ops[:j + 1], 'heap_violation': v, 'got': res['out'][j], 'fresh': refs[ref_key(ops[j])]},
                           signature=sig)
             done.add(key)
@@ -1584,27 +1588,27 @@ def heap_correspondence(ctx, mp, pool_path, hists, results, distinct, refs, refe
             if key in done:
                 continue
             ext = prefix + probes
-            j = next((j for j in range(len(prefix), len(ext)) if r['out'][j] != refs[ref_key(ext[j])]), None)
+            j = next((j for j in range(len(prefix), len(ext)) if ref_key(ext[j]) in refs and r['out'][j] != refs[ref_key(ext[j])]), None)
             if pas == 0 and j is not None:
                 done.add(key)
                 ctx.violation(head + '%s [%s]: %s; running %s on %s once more afterwards in the same process gives %s, first in a fresh interpreter %s (%d histories show this violation)'
                               % (where(prefix, v), v['kind'], v['text'], kind_str(ext[j]), ext[j].get('m') or ext[j].get('v'),
-                                 _short(r['out'][j]), _short(refs[ref_key(ext[j])]), nlst),
+                                 _short(r['out'][j]), _short(refs[ref_key(ext[j])]), nlst) + tail,
                               {'mode': 'history', 'limit': limit, 'ops': ext[:j + 1], 'heap_violation': v, 'got': r['out'][j], 'fresh': refs[ref_key(ext[j])]},
                               signature=sig)
             elif pas == 1:
                 done.add(key)
                 nprobe = sum(len(x[3]) for x in searches if x[0] == key)
                 ctx.violation(head + '%s [%s]: %s. No output of the %d histories that show this violation or of %d probe operations (the decodes / encodes / views '
-                              'of the history run once more after the violating operation, same process) differs from a fresh interpreter'
-                              % (where(prefix, v), v['kind'], v['text'], nlst, nprobe),
+                              'of the history run once more after the violating operation in the same process, with the kept message objects and after releasing them) differs from a fresh interpreter'
+                              % (where(prefix, v), v['kind'], v['text'], nlst, nprobe) + tail,
                               {'mode': 'history', 'limit': limit, 'ops': prefix, 'heap_violation': v, 'probes': probes},
                               signature=sig, no_failing_input=True)
     for key, lst in sorted(cands.items()):
         if key not in done:      # more distinct violations than the search budget of this run
             limit, ops, res, v, sig = lst[0]
             ctx.violation(head + '%s [%s]: %s. No output of the %d histories that show this violation differs from a fresh interpreter (no probe '
-                          'operations run: the budget of %d searches per run was spent on other violations)' % (where(ops, v), v['kind'], v['text'], len(lst), HEAP_SEARCHES),
+                          'operations run: the budget of %d searches per run was spent on other violations)' % (where(ops, v), v['kind'], v['text'], len(lst), HEAP_SEARCHES) + tail,
                           {'mode': 'history', 'limit': limit, 'ops': ops[:max(v['op'], 0) + 1], 'heap_violation': v},
                           signature=sig, no_failing_input=True)
 
